@@ -513,11 +513,22 @@ struct QExpression {
             if (num_right != SizeT64{0}) {
                 const bool right_odd = ((num_right & SizeT64{1}) == SizeT64{1});
 
-                PowerOf(Value.Number.Natural, num_right);
-
                 if (right_negative) {
-                    Value.Number.Real = double(Value.Number.Natural);
-                    Value.Number.Real = (1.0 / Value.Number.Real);
+                    // The result is a real; the power is taken as one too: as a whole number it wraps around
+                    // long before its reciprocal runs out of range (2^-64).
+                    double base   = double(Value.Number.Natural);
+                    double result = 1.0;
+
+                    while (num_right != SizeT64{0}) {
+                        if ((num_right & SizeT64{1}) == SizeT64{1}) {
+                            result *= base;
+                        }
+
+                        base *= base;
+                        num_right >>= 1U;
+                    }
+
+                    Value.Number.Real = (1.0 / result);
                     Type              = ExpressionType::RealNumber;
 
                     if (left_negative) {
@@ -525,9 +536,11 @@ struct QExpression {
                     }
 
                 } else if (left_negative && right_odd) {
+                    PowerOf(Value.Number.Natural, num_right);
                     Value.Number.Integer = -Value.Number.Integer;
                     Type                 = ExpressionType::IntegerNumber;
                 } else {
+                    PowerOf(Value.Number.Natural, num_right);
                     Type = ExpressionType::NaturalNumber;
                 }
 
